@@ -89,11 +89,14 @@ def run(prop, tier):
     c.assumptions = ["oracles (Floyd-Warshall, union-find, all-simple-cycles reference) are independent of parmcb and exact on integer/dyadic weights"]
     binary = _build()
     cfgbin = {"@log": vlib.build("components_cfg_log", "components.cpp", cfg=vlib.gen_config(logging=True)),
-              "@noinv": vlib.build("components_cfg_noinv", "components.cpp", cfg=vlib.gen_config(invariants=False))}
+              "@noinv": vlib.build("components_cfg_noinv", "components.cpp", cfg=vlib.gen_config(invariants=False)),
+              "@ulong": vlib.build("components_ulong", "components.cpp", flags=vlib.BASE_FLAGS + ["-DVH_WTYPE=unsigned long"])}
     c.builds_done()
     weighted = sp["comp"] in ("sptree", "collections")
     plan = sp["quick"] + [("other build configurations of the library (PARMCB_LOGGING on, PARMCB_INVARIANTS_CHECK off): G(4), G(5)",
-                           [[t, "--n", n] + (["--alpha", "A2"] if weighted else []) for t in ("@log", "@noinv") for n in (4, 5)])] + (sp["thorough"] if tier == "thorough" else [])
+                           [[t, "--n", n] + (["--alpha", "A2"] if weighted else []) for t in ("@log", "@noinv") for n in (4, 5)])] + \
+        ([("unsigned integral weight type (unsigned long): G(4) x A3, G(5) x A2, tie-heavy families x U", [["@ulong", "--n", 4, "--alpha", "A3"], ["@ulong", "--n", 5, "--alpha", "A2"], ["@ulong", "--families", FAMS_TIES, "--alpha", "U"]])] if weighted else []) + \
+        (sp["thorough"] if tier == "thorough" else [])
     for bound, arglists in plan:
         for args in arglists:
             tag = args[0] if args and str(args[0]).startswith("@") else None
